@@ -108,7 +108,15 @@ pub fn h_configure_just<M: VMode>() {
 pub fn h_configure_repeated<M: VMode>() {
     run::<u8, VS, (), _>(|inp, s0| {
         let n = ch::any_u16();
-        let p = anyp_prog::<SymIn<u8>, XC>(0).repeated().configure(|cfg: RepeatedCfg, ctx: &u16| cfg.exactly(*ctx as usize));
+        // bounds set statically on the builder are overridden by what the configuration sets
+        let (b_lo, b_capped, b_hi) = (ch::any_usize(), ch::any_bool(), ch::any_usize());
+        let mut base = anyp_prog::<SymIn<u8>, XC>(0).repeated().at_least(b_lo);
+        if b_capped {
+            base = base.at_most(b_hi);
+        }
+        vcover!(b_capped && (n as usize) > b_hi, "configure repeated: configured count above the builder's cap");
+        vcover!((n as usize) < b_lo, "configure repeated: configured count below the builder's minimum");
+        let p = base.configure(|cfg: RepeatedCfg, ctx: &u16| cfg.exactly(*ctx as usize));
         let r: Result<Option<M::Output<u16>>, ()> = inp.with_ctx::<XC, _>(&n, |inp2| {
             let mut st = p.make_iter::<M>(inp2)?;
             p.next::<M>(inp2, &mut st)
@@ -127,6 +135,28 @@ pub fn h_configure_repeated<M: VMode>() {
             } else {
                 vassert!(r.is_err() && s.alt.is_some(), "C15/configure_repeated.too-few-items-is-a-failure-as-for-static-exactly");
             }
+        }
+    });
+}
+/// just(placeholder sequence).configure(seq from context): matches exactly as `just(that sequence)`,
+/// also when the configured sequence is empty (bounded: sequences of <= 1 token).
+pub fn h_configure_just_seq<M: VMode>() {
+    run::<u8, VErr, (), _>(|inp, s0| {
+        static EMPTY: [u8; 0] = [];
+        let (stat, dynamic) = (ch::any_u8(), ch::any_u8());
+        let stat_seq: &'static [u8] = alloc::boxed::Box::leak(alloc::boxed::Box::new([stat]));
+        let dyn_seq: &'static [u8] = if ch::any_bool() { &EMPTY } else { alloc::boxed::Box::leak(alloc::boxed::Box::new([dynamic])) };
+        let p = just::<&'static [u8], SymIn<u8>, X<VErr, &'static [u8]>>(stat_seq).configure(|cfg: JustCfg<&'static [u8]>, ctx: &&'static [u8]| cfg.seq(*ctx));
+        let r = p.with_ctx(dyn_seq).gov::<M>(inp);
+        let s = snap(inp);
+        let here = if s0.pos < s0.len { Some(inp.cache.tok_at(s0.pos)) } else { None };
+        vcover!(dyn_seq.is_empty(), "configure just: empty configured sequence");
+        let want_ok = dyn_seq.is_empty() || here == Some(dynamic);
+        vassert!(r.is_ok() == want_ok, "C15/configure_just.sequence-from-context-matches-exactly-as-the-static-sequence");
+        if r.is_ok() {
+            vassert!(s.pos == s0.pos + dyn_seq.len() && s.believed == s.pos, "C15/configure_just.consumes-exactly-the-configured-sequence");
+        } else {
+            vassert!(s.pos == s0.pos && s.alt.is_some(), "C15/configure_just.failure-restores-position-and-leaves-an-error");
         }
     });
 }
@@ -177,6 +207,8 @@ pub fn h_nested_in<M: VMode>() {
                 vcover!(!la.ok, "nested_in: inner parser fails");
                 vassert!(s.alt.is_some(), "C16/nested_in.inner-failure-surfaces-as-a-pending-error");
                 vassert!(s.nsec >= s0.nsec, "C05/nested_in.failure-keeps-earlier-emissions");
+                vcover!(la.emitted > 0, "nested_in: inner parse emits, then fails");
+                vassert!(s.nsec == s0.nsec + lb.emitted + la.emitted, "C16/nested_in.inner-emissions-surface-together-with-the-inner-failure");
             }
             // the outer pending error is never lost: it is at least as far as every outer offer
             let outer = Offers::of(&s0, &[&lb]);
@@ -316,6 +348,8 @@ harnesses! {
     then_with_ctx_emit = h_ctx_from_left::<Emit, true>;
     then_with_ctx_check = h_ctx_from_left::<Check, true>;
     map_ctx_emit = h_map_ctx::<Emit>;
+    #[kani::unwind(4)]
+    configure_just_seq_emit_b1 = h_configure_just_seq::<Emit>;
     configure_just_emit = h_configure_just::<Emit>;
     configure_just_check = h_configure_just::<Check>;
     #[kani::unwind(4)]
